@@ -400,12 +400,13 @@ func cancelTopAllowed(prefix []arrSpec) bool {
 // ---- proxyRequestOnStream -----------------------------------------------------
 
 type proxyCase struct {
-	ID    string `json:"id"`
-	Prev  string `json:"prev"`
-	Reply string `json:"reply"` // ok fail unsup noresult garbage eof
-	Msg   string `json:"msg,omitempty"`
-	Hello *greet `json:"hello"`
-	Echo  *greet `json:"echo,omitempty"` // reply ok: extra attributes of the reply
+	ID    string  `json:"id"`
+	Prev  string  `json:"prev"`
+	Reply string  `json:"reply"` // ok fail unsup noresult garbage eof
+	Msg   string  `json:"msg,omitempty"`
+	Hello *greet  `json:"hello"`
+	Echo  *greet  `json:"echo,omitempty"` // reply ok: extra attributes of the reply
+	More  []greet `json:"more,omitempty"` // further messages queued behind the first hello on the same socket
 
 	// observed
 	Res       string `json:"res"` // returned | <class> | hang | panic | otherconn
@@ -447,9 +448,19 @@ func (pc *proxyCase) run() {
 	pc.Hello = &g
 	stall := false
 	if !eof {
-		hd, _, st := g.wire(pc.ID)
+		hd, closeAfter, st := g.wire(pc.ID)
 		data = append(data, hd...)
 		stall = st
+		for i := range pc.More {
+			if closeAfter || stall {
+				pc.More = pc.More[:i]
+				break
+			}
+			m := pc.More[i].resolve(pc.ID, pc.Prev)
+			pc.More[i] = m
+			hd, closeAfter, stall = m.wire(pc.ID)
+			data = append(data, hd...)
+		}
 	}
 	mc := newMemConn(1, data, stall)
 	if stall {
@@ -508,6 +519,9 @@ func (pc *proxyCase) oracle() []failure {
 	if (pc.Reply == "fail" || pc.Reply == "noresult") && !(pc.Res == "proxyrefused" && strings.Contains(pc.ErrText, pc.Msg)) {
 		fs = append(fs, failure{"c20-broker-failure-ignored", fmt.Sprintf("proxyRequestOnStream: broker refused with %q but the result was %s", pc.Msg, pc.Res)})
 	}
+	if pc.Reply == "ok" && pc.Hello.Kind == "hello" && pc.Hello.Cmd == ccb.CommandReverseConnect && !m && pc.Res != "proxymismatch" {
+		fs = append(fs, failure{"c20-proxy-wrong-first-hello-not-refused", fmt.Sprintf("proxyRequestOnStream(id=%q): after {Result:true} the first hello carried %q; expected the id-mismatch error whatever follows (%d more messages queued), got %s", pc.ID, pc.Hello.Claim, len(pc.More), pc.Res)})
+	}
 	if pc.ReqID != pc.ID || !pc.ReqStream {
 		fs = append(fs, failure{"c20-proxy-request-id", "the streaming request does not carry this request's connect id / CCBStreamingRequired"})
 	}
@@ -523,7 +537,11 @@ func (pc *proxyCase) term() string {
 	if pc.Res != "returned" {
 		obs = "(Some " + errTerm(pc.Res, pc.ErrText, []string{pc.Msg}) + ")"
 	}
-	return fmt.Sprintf("(CProxyFn %s %s %s %s)", bytesTerm(pc.ID), rep, pc.Hello.term(), obs)
+	hs := []string{pc.Hello.term()}
+	for _, m := range pc.More {
+		hs = append(hs, m.term())
+	}
+	return fmt.Sprintf("(CProxyFn %s %s %s %s)", bytesTerm(pc.ID), rep, core.List(hs), obs)
 }
 
 func genProxyFn(c *core.Ctx) {
@@ -546,6 +564,19 @@ func genProxyFn(c *core.Ctx) {
 	}
 	for _, g := range []greet{cat[1], cat[2], legit(), cat[0]} {
 		runOne(&proxyCase{ID: "", Prev: randID(c), Reply: "ok", Hello: ptr(g)}, "emptyid|"+g.String())
+	}
+	// several messages queued on the socket: the first one decides
+	for _, first := range append([]greet{legit()}, cat...) {
+		if first.Kind == "trunc" || first.Kind == "close" {
+			continue
+		}
+		for k, rest := range [][]greet{{legit()}, {cat[0], legit()}, {helloForm("prev"), helloForm("lit"), legit(), legit()}} {
+			if c.Quick() && k == 1 && first.Kind != "hello" {
+				continue
+			}
+			runOne(&proxyCase{ID: randID(c), Prev: randID(c), Reply: "ok", Hello: ptr(first), More: append([]greet(nil), rest...)},
+				fmt.Sprintf("queued|%s|%d", first.String(), k))
+		}
 	}
 	// decorated success replies x hellos carrying each candidate id
 	for _, ef := range []string{"right", "prev", "lit", "empty", "int", "absent", "prefix", "upper"} {
